@@ -147,12 +147,27 @@ void callback_fn(metrics_api::ObserverResult result, void *state)
     if (nostd::holds_alternative<nostd::shared_ptr<metrics_api::ObserverResultT<int64_t>>>(result))
     {
       auto &r = nostd::get<nostd::shared_ptr<metrics_api::ObserverResultT<int64_t>>>(result);
-      bare ? r->Observe(v) : r->Observe(v, view);
+      // the attribute-less series alternates between Observe(value) and an empty attribute map
+      if (bare && (n & 1))
+      {
+        std::map<std::string, int64_t> none;
+        common::KeyValueIterableView<std::map<std::string, int64_t>> empty(none);
+        r->Observe(v, empty);
+      }
+      else
+        bare ? r->Observe(v) : r->Observe(v, view);
     }
     else
     {
       auto &r = nostd::get<nostd::shared_ptr<metrics_api::ObserverResultT<double>>>(result);
-      bare ? r->Observe((double)v) : r->Observe((double)v, view);
+      if (bare && (n & 1))
+      {
+        std::map<std::string, int64_t> none;
+        common::KeyValueIterableView<std::map<std::string, int64_t>> empty(none);
+        r->Observe((double)v, empty);
+      }
+      else
+        bare ? r->Observe((double)v) : r->Observe((double)v, view);
     }
   }
   vsim::yield();
